@@ -17,6 +17,7 @@ PARTIAL = ["C15_expired_prompt/C15_no_crash/C15_no_early_timeout are proved for 
            "and the cv / mu / note / counter wait loops are covered by the real-library grid (now also with never-notified cancel notes and the wait_n heap path), "
            "not by a theorem"]
 REPLAY_HINT = "_work/c15/drv_<build> <entry> <kind> <sec> <nsec>   (harness/seq/deadline_driver.c linked with the library built from /repo)"
+PROMPT_MS = 500      # an expired deadline must be reported within this many ms (1 ms is typical under load 30-50); a slower case is re-run twice before it counts
 ENTRIES = ["cv", "mu", "note", "counter", "waitn", "cvn", "mun", "rmun", "waitn5"]
 I64MAX = 2 ** 63 - 1
 NS = 10 ** 9
@@ -29,17 +30,20 @@ def build():
     exes, errs = {}, {}
     jobs = {
         "c": ["gcc", "-O1", "-g", "-w", "-pthread"] + ["-I%s/%s" % (REPO, i) for i in C_INC] + [drv] +
-             [os.path.join(REPO, s) for s in C_LIB_SRC] + ["-o", d + "/drv_c"],
+             [os.path.join(REPO, s) for s in C_LIB_SRC] + ["-o", d + "/drv_c.tmp%d" % os.getpid()],
         "c++": ["g++", "-x", "c++", "-std=c++11", "-O1", "-g", "-w", "-pthread"] + CXX_DEFS +
                ["-I%s/%s" % (REPO, i) for i in CXX_INC] + [drv] + [os.path.join(REPO, s) for s in CPP_LIB_SRC] +
-               ["-o", d + "/drv_cpp"],
+               ["-o", d + "/drv_cpp.tmp%d" % os.getpid()],
     }
     with cf.ThreadPoolExecutor(2) as ex:
         futs = {k: ex.submit(sh, v, 300) for k, v in jobs.items()}
         for k, f in futs.items():
             rc, o, e = f.result()
             if rc == 0:
-                exes[k] = d + ("/drv_c" if k == "c" else "/drv_cpp")
+                # publish by atomic rename: C05 and C15 may build and run these drivers at the same time (fourth review, M4)
+                final = d + ("/drv_c" if k == "c" else "/drv_cpp")
+                os.replace(final + ".tmp%d" % os.getpid(), final)
+                exes[k] = final
             else:
                 errs[k] = e[-600:]
     return exes, errs
@@ -70,11 +74,17 @@ def deadlines(tier):
 def run_case(exe, entry, d):
     kind, sec, nsec, exp = d
     t0 = time.time()
-    try:
-        r = subprocess.run([exe, entry, kind, str(sec), str(nsec)], capture_output=True, text=True, timeout=15)
-        rc, out = r.returncode, r.stdout.strip()
-    except subprocess.TimeoutExpired:
-        rc, out = "hang", ""
+    rc, out = "hang", ""
+    for attempt in range(3):
+        try:
+            r = subprocess.run([exe, entry, kind, str(sec), str(nsec)], capture_output=True, text=True, timeout=15)
+            rc, out = r.returncode, r.stdout.strip()
+            break
+        except subprocess.TimeoutExpired:
+            rc, out = "hang", ""
+            break
+        except OSError:                      # the driver is being replaced by a concurrent build: try again
+            time.sleep(0.3)
     return {"entry": entry, "deadline": [kind, sec, nsec], "expect": exp, "rc": rc, "out": out, "wall": round(time.time() - t0, 2)}
 
 
@@ -93,7 +103,7 @@ def judge(c):
     if exp == "expired":
         if cls != "TIMEOUT":
             return "expired deadline did not produce the timeout result (%s)" % c["out"]
-        if ms > 3000:
+        if ms > PROMPT_MS:
             return "expired deadline not reported promptly (%.0f ms inside the call)" % ms
     elif exp == "none":
         if cls != "EVENT":
@@ -136,6 +146,14 @@ def run(tier, seed):
         for b, f in futs:
             c = f.result()
             c["build"] = b
+            v0 = judge(c)
+            if v0 and "promptly" in v0:      # a loaded machine: only a case that is slow three times in a row counts
+                for _ in range(2):
+                    c2 = run_case(exes[b], c["entry"], tuple(c["deadline"]) + (c["expect"],))
+                    c2["build"] = b
+                    if not judge(c2):
+                        c = c2
+                        break
             cases.append(c)
     seen = set()
     for c in cases:
